@@ -176,11 +176,16 @@ def analyse_measure_like(prog, m, amp, q, sp, KS, KP):
     norm_decl = None
     late_doubles = []     # doubles defined after the draw: evaluated per outcome case
     late_cases = []
+    late_offsets = []     # index offsets chosen by the outcome (`size_t keepOffset = res ? bit : 0;`)
     for s in stmts:
         if s['k'] == 'decls':
             for v in s['d']:
                 t = v['type'][6:] if v['type'].startswith('const ') else v['type']
                 if t in ('unsigned long', 'size_t'):
+                    if res_id is not None and SX.is_node(v.get('init')) and any(x['k'] == 'ref' and x.get('id') in ([res_id] + [c_[0]['id'] for c_ in late_cases])
+                                                                                 for x in SX.walk(v['init'])):
+                        late_offsets.append(v)
+                        continue
                     try:
                         term = F.fold(v['init'])
                         F.env[v['id']] = term
@@ -225,9 +230,7 @@ def analyse_measure_like(prog, m, amp, q, sp, KS, KP):
     aliases = KP.size_aliases(m.body, amp)
     sw1 = KP.state_sweep(loops[0], amp, bit_ids, aliases)
     sw2 = KP.state_sweep(loops[-1], amp, bit_ids, aliases)
-    if sw1 is not None and sw1[0] != 'flat':
-        raise AnalysisBroken('%s: a blocked accumulation sweep is not recognised' % m.short)
-    l1 = (sw1[1], sw1[2]) if sw1 else None
+    l1 = sw1
     l2 = sw2
     if l1 is None or l2 is None:
         why = [KP.partial_state_loop(l, amp) for l, x in ((loops[0], l1), (loops[-1], l2)) if x is None]
@@ -238,13 +241,16 @@ def analyse_measure_like(prog, m, amp, q, sp, KS, KP):
     info['loop2_ln'] = loops[-1].get('ln')
     # accumulation
     try:
-        it = KP.PairIter(amp, l1[0]['id'], bit_ids, {}, {})
-        accs = {}
-        for b in (0, 1):
-            cells, acc = it.run(l1[1], b)
-            if cells:
+        it = KP.PairIter(amp, None, bit_ids, {}, {})
+        # what the sweep adds for one pair of cells, visit by visit (a flat sweep meets the pair twice: at its bit-clear and at its
+        # bit-set index; a blocked sweep may walk only the halves it needs); the sums are attributed to the bit of the visit
+        accs = {0: {}, 1: {}}
+        for vs in KP.sweep_visits(l1):
+            _fin, acc, wrote = KP.run_visits(it, [vs])
+            if wrote:
                 raise KP.NotPairwise('accumulation loop writes amplitudes')
-            accs[b] = acc
+            for k_, x_ in acc.items():
+                accs[vs['b']][k_] = accs[vs['b']].get(k_, 0) + x_
         ids = set(accs[0]) | set(accs[1])
         if len(ids) == 0:
             raise PartialSweep('%s: the first sweep accumulates nothing (no `p += |amplitude|²` under the bit test)' % m.short, loops[0].get('ln'))
@@ -287,7 +293,13 @@ def analyse_measure_like(prog, m, amp, q, sp, KS, KP):
                 it.scalars[v['id']] = it.amp_expr(v['init'])
             for v, t in late_cases:
                 it.cases[v['id']] = it.cond(v['init']) if t == 'bool' else it.val(v['init'])
-            if l2[0] == 'flat':
+            it.lazy_idx = {v['id']: v['init'] for v in late_offsets}
+            if l2[0] == 'plan':
+                # a block-wise sweep: the pair after all visits; a cell counts as written when some visit wrote it
+                fin, _acc, wrote = KP.run_visits(it, l2[1])
+                for b in (0, 1):
+                    info['collapse'][(b, res)] = {b: fin[b]} if b in wrote else {}
+            elif l2[0] == 'flat':
                 for b in (0, 1):
                     cells, acc = it.run(l2[2], b)
                     info['collapse'][(b, res)] = cells
